@@ -1,4 +1,4 @@
-//@ unit u3c_merge props C07
+//@ unit u3c_merge props C07 also C10
 // Unit U3c: merging a room definition received from a peer with the definition already held
 // (src/database/room_node.rs prepare_auth_with_history / prepare_room_with_history).
 #![feature(allocator_api)]
@@ -483,6 +483,8 @@ pub proof fn lemma_appended_keeps_entries(a: Map<Vec<u8>, Vec<User>>, b: Map<Vec
             r is Ok ==> keeps_users(old_auth.user_admin_nodes@, final(new_auth).user_admin_nodes@),
             // [merged_group_row_untouched] the group row itself is not altered by the merge of its lists
             final(new_auth).node == old(new_auth).node,
+            // [merged_group_write_flag_untouched] nor is the decision to write the group row
+            final(new_auth).need_update == old(new_auth).need_update,
             // [merged_group_keeps_references] nor any reference that attaches an entry already held
             r is Ok ==> keeps_edges(old_auth.user_admin_edges@, final(new_auth).user_admin_edges@)
                 && keeps_edges(old_auth.user_edges@, final(new_auth).user_edges@) && keeps_edges(old_auth.right_edges@, final(new_auth).right_edges@),
@@ -598,16 +600,23 @@ pub proof fn lemma_step_keeps_groups(acc: Room, before: Seq<AuthorisationNode>, 
         }
     }
 }
-/// a group that is new to the receiver: authored by an admin, its rights and user admins authored by admins, its users by its user admins
+/// a group that is new to the receiver: authored by an admin, its rights and user admins authored by admins, its users by its user admins or by admins
 pub open spec fn new_group_ok(acc: Room, n: AuthorisationNode) -> bool {
     spec_is_admin(acc, n.node.verifying_key, n.node.mdate)
     && rights_by_admin(acc, n.right_nodes@) && users_by_admin(acc, n.user_admin_nodes@)
-    && (forall|i: int| 0 <= i < n.user_nodes@.len() ==> spec_can_admin_users(spec_parse_auth(n), (#[trigger] n.user_nodes@[i]).node.verifying_key, n.user_nodes@[i].node.mdate))
+    && (forall|i: int| 0 <= i < n.user_nodes@.len() ==> spec_can_admin_users(spec_parse_auth(n), (#[trigger] n.user_nodes@[i]).node.verifying_key, n.user_nodes@[i].node.mdate)
+            || spec_is_admin(acc, n.user_nodes@[i].node.verifying_key, n.user_nodes@[i].node.mdate))
 }
 pub open spec fn new_groups_entitled(acc: Room, old_s: Seq<AuthorisationNode>, s: Seq<AuthorisationNode>) -> bool {
     forall|i: int| 0 <= i < s.len() ==> id_in_auths((#[trigger] s[i]).node.id, old_s) || new_group_ok(acc, s[i])
 }
 
+/// a group row is left unwritten (need_update false) only when it IS the row held for that group: what is stored never depends on
+/// the unsigned need_update flag of the message (C10: the definition stored is the definition merged)
+pub open spec fn unflagged_are_held(s: Seq<AuthorisationNode>, old_s: Seq<AuthorisationNode>) -> bool {
+    forall|i: int| 0 <= i < s.len() ==> (#[trigger] s[i]).need_update || exists|j: int| 0 <= j < old_s.len() && s[i].node == (#[trigger] old_s[j]).node
+}
+pub open spec fn all_flagged(s: Seq<AuthorisationNode>) -> bool { forall|i: int| 0 <= i < s.len() ==> (#[trigger] s[i]).need_update }
 /// `acc` is the room held by the receiver, extended only in its admin list
 pub open spec fn admin_ext(room0: Room, acc: Room) -> bool { acc.id == room0.id && acc.authorisations == room0.authorisations }
 /// the admin entry `n` was authored by a key that is an admin, at the entry's date, of the room held by the receiver
@@ -634,6 +643,7 @@ pub open spec fn new_admins_entitled(room0: Room, old_s: Seq<UserNode>, s: Seq<U
         ensures b == (user.node.id@ =~= new_admin.node.id@)
 //@ loop "for old_edge in &old_room_node.admin_edges" iter ite
         invariant
+            all_flagged(old(room_node).auth_nodes@) ==> unflagged_are_held(room_node.auth_nodes@, old_room_node.auth_nodes@),
             // [room_merge_keeps_admin_references]
             forall|j: int| 0 <= j < ite.index@ ==> has_same_edge(room_node.admin_edges@, #[trigger] old_room_node.admin_edges@[j]),
 //@ insert before-stmt "let admin_edge = &room_node"
@@ -650,6 +660,7 @@ pub open spec fn new_admins_entitled(room0: Room, old_s: Seq<UserNode>, s: Seq<U
     let ghost ae_final = room_node.admin_edges@;
 //@ loop "for old_user in &old_room_node.admin_nodes" iter ito
         invariant
+            all_flagged(old(room_node).auth_nodes@) ==> unflagged_are_held(room_node.auth_nodes@, old_room_node.auth_nodes@),
             room_node.admin_edges@ == ae_final,
             // [room_merge_keeps_admin_entries] every admin entry already held is still in the merged list with the same signed content
             forall|j: int| 0 <= j < ito.index@ ==> has_same_user(room_node.admin_nodes@, #[trigger] old_room_node.admin_nodes@[j]),
@@ -665,6 +676,7 @@ pub open spec fn new_admins_entitled(room0: Room, old_s: Seq<UserNode>, s: Seq<U
     let ghost a_final = room_node.admin_nodes@;
 //@ loop "for new_admin in &room_node.admin_nodes" iter it
         invariant
+            all_flagged(old(room_node).auth_nodes@) ==> unflagged_are_held(room_node.auth_nodes@, old_room_node.auth_nodes@),
             <[u8; 16] as PartialEqSpec<[u8; 16]>>::obeys_eq_spec(),
             admin_ext(room0, room),
             // [room_merge_new_admins_by_admins] an admin entry not already held is accepted only from a key that is an admin at the entry's date
@@ -676,6 +688,7 @@ pub open spec fn new_admins_entitled(room0: Room, old_s: Seq<UserNode>, s: Seq<U
     let ghost room_acc = room;
 //@ loop "for old_edge in &old_room_node.auth_edges" iter ite
         invariant
+            all_flagged(old(room_node).auth_nodes@) ==> unflagged_are_held(room_node.auth_nodes@, old_room_node.auth_nodes@),
             room_node.admin_edges@ == ae_final, room_node.admin_nodes@ == a_final,
             // [room_merge_keeps_group_references]
             forall|j: int| 0 <= j < ite.index@ ==> has_same_edge(room_node.auth_edges@, #[trigger] old_room_node.auth_edges@[j]),
@@ -690,6 +703,7 @@ pub open spec fn new_admins_entitled(room0: Room, old_s: Seq<UserNode>, s: Seq<U
     assert(keeps_edges(old_room_node.auth_edges@, ge_final));
 //@ loop "for old_auth in &old_room_node.auth_nodes" iter itg
         invariant
+            all_flagged(old(room_node).auth_nodes@) ==> unflagged_are_held(room_node.auth_nodes@, old_room_node.auth_nodes@),
             room_node.admin_edges@ == ae_final, room_node.admin_nodes@ == a_final, room_node.auth_edges@ == ge_final,
             room == room_acc, admin_ext(room0, room_acc), distinct_group_ids(old_room_node.auth_nodes@),
             forall|i: int| 0 <= i < old_room_node.auth_nodes@.len() ==> room0.authorisations@.contains_key((#[trigger] old_room_node.auth_nodes@[i]).node.id),
@@ -717,9 +731,10 @@ pub open spec fn new_admins_entitled(room0: Room, old_s: Seq<UserNode>, s: Seq<U
         ensures b == (auth.node.id@ =~= new_auth.node.id@)
 //@ loop "for new_auth in &room_node.auth_nodes" iter it
         invariant
+            all_flagged(old(room_node).auth_nodes@) ==> unflagged_are_held(room_node.auth_nodes@, old_room_node.auth_nodes@),
             <[u8; 16] as PartialEqSpec<[u8; 16]>>::obeys_eq_spec(),
             room == room_acc,
-            // [room_merge_new_groups_entitled] a group not already held is accepted only from an admin, with rights and user admins authored by admins and users by its user admins
+            // [room_merge_new_groups_entitled] a group not already held is accepted only from an admin, with rights and user admins authored by admins and users by its user admins or by admins
             forall|i: int| 0 <= i < it.index@ ==> id_in_auths((#[trigger] room_node.auth_nodes@[i]).node.id, old_room_node.auth_nodes@) || new_group_ok(room_acc, room_node.auth_nodes@[i]),
 //@ insert after-stmt "for new_auth in &room_node.auth_nodes"
     assert(new_groups_entitled(room_acc, old_room_node.auth_nodes@, g_final));
@@ -735,6 +750,8 @@ pub open spec fn new_admins_entitled(room0: Room, old_s: Seq<UserNode>, s: Seq<U
             // [merged_room_keeps_groups_and_new_groups_entitled] for some extension `acc` of the room held (admins only): every group already held is kept with all its entries and references; every other group is a legitimately authored new group
             r is Ok ==> exists|acc: Room| admin_ext(*room, acc) && keeps_groups(acc, old_room_node.auth_nodes@, final(room_node).auth_nodes@)
                 && new_groups_entitled(acc, old_room_node.auth_nodes@, final(room_node).auth_nodes@),
+            // [group_row_skipped_only_when_the_held_row_is_kept]{C10} when every received group arrives marked "to be written", a group row is left unwritten only when the row held is kept in its place
+            r is Ok && all_flagged(old(room_node).auth_nodes@) ==> unflagged_are_held(final(room_node).auth_nodes@, old_room_node.auth_nodes@),
             // [merged_room_keeps_admins] accepting the definition never removes or alters an admin entry, nor a reference to an admin entry or to a group, already held
             r is Ok ==> keeps_users(old_room_node.admin_nodes@, final(room_node).admin_nodes@)
                 && keeps_edges(old_room_node.admin_edges@, final(room_node).admin_edges@)
@@ -760,6 +777,11 @@ pub fn prepare_new_room(room_node: &RoomNode) -> (r: Result<()>) ensures r is Ok
 //@ extract src/database/authorisation_service.rs :: impl RoomAuthorisations / fn prepare_room_node
 //@ result r
 //@ rewrite E16 "(?s)\"[A-Za-z, _]+\"\s*\.to_string\(\)" => "fmt_stub()" x*
+//@ rewrite E17 "(?<=for auth in )&mut room_node\.auth_nodes(?= \{)" => "room_node.auth_nodes.iter_mut()" x1
+//@ loop "for auth in &mut room_node.auth_nodes" iter ita
+            invariant
+                // [wire_flag_reset_touches_nothing_else] the unsigned need_update flag of the message is overwritten for every group; nothing else of the received definition changes
+                forall|i: int| 0 <= i < ita.index@ ==> *final(#[trigger] ita.seq()[i]) == (AuthorisationNode { need_update: true, ..*ita.seq()[i] }),
 //@ spec
         requires
             // the definition already held (read back from storage) names each group once and its groups are those of the in-memory room: ASSUMED of the storage / memory pair (C10)
@@ -779,6 +801,9 @@ pub fn prepare_new_room(room_node: &RoomNode) -> (r: Result<()>) ensures r is Ok
                 && new_admins_entitled(self.rooms@[old(room_node).node.id], old_room_node->Some_0.admin_nodes@, final(room_node).admin_nodes@)
                 && exists|acc: Room| admin_ext(self.rooms@[old(room_node).node.id], acc) && keeps_groups(acc, old_room_node->Some_0.auth_nodes@, final(room_node).auth_nodes@)
                     && new_groups_entitled(acc, old_room_node->Some_0.auth_nodes@, final(room_node).auth_nodes@),
+            // [stored_group_rows_do_not_depend_on_the_wire_flag]{C10} need_update is not signed: whatever value the message carried, a group row of an accepted definition is left unwritten only when the row held for that group is kept in its place (room held), and never for a room not held
+            r is Ok && self.rooms@.contains_key(old(room_node).node.id) ==> unflagged_are_held(final(room_node).auth_nodes@, old_room_node->Some_0.auth_nodes@),
+            r is Ok && !self.rooms@.contains_key(old(room_node).node.id) ==> all_flagged(final(room_node).auth_nodes@),
             // [unknown_room_checked_as_new] a definition for a room not held is accepted only through the whole-history check of a new room, and is then stored
             r is Ok && !self.rooms@.contains_key(old(room_node).node.id) ==> checked_as_new(*final(room_node)) && r->Ok_0,
 //@ end
